@@ -704,8 +704,15 @@ func (g *c13Gen) cuts(kind string, size int, bounds []int, exhaustLimit, nRandom
 		g.in.s.Count("files-cut-exhaustively")
 		g.in.s.Add("cuts-exhaustive", size+1)
 	} else {
+		// the bounds come from the reads the tree under test makes: a reader that fetches a bucket in one large read has
+		// no boundary inside the bucket, so for the sig-exists file (4-byte count, 8-byte hashes) the window after each
+		// boundary also covers the count and the first hash whatever the read pattern
+		hi := 2
+		if kind == "sigexists" {
+			hi = 13
+		}
 		for _, b := range append([]int{0, 1, size - 1, size}, bounds...) {
-			for d := -2; d <= 2; d++ {
+			for d := -2; d <= hi; d++ {
 				if b+d >= 0 && b+d <= size {
 					set[b+d] = true
 				}
